@@ -24,9 +24,11 @@ def run(ctx):
     for _ in range(ctx.n(50000, 2000000)):
         strings.append(core.rand_vector("2", rng, p_absent=rng.choice([0.1, 0.4, 0.7])))
     strings += core.singletons("2", rng, 729)
+    strings += core.special("2", rng, ctx.n(6000, 120000))
     ctx.extra["exhaustive_part"] = "all 729 base vectors; all 729 x single-optional-metric spellings"
     for i in range(0, len(strings), 200000):
         scoring.check_scores(ctx, "2", strings[i:i + 200000], "v2")
+    scoring.extra_probes(ctx, "2", strings, "v2")
     if ctx.tier == "thorough" and ctx.scale == 1:
         n = 0
         for chunk in quotient_chunks():
